@@ -19,12 +19,35 @@ import (
 type c11 struct{}
 
 func (c11) ID() string                                  { return "C11" }
-func (c11) Strategy(rng *simrt.Rand) simrt.Strategy     { return simrt.Strategy{Kind: "seq"} }
+func (c11) Strategy(rng *simrt.Rand) simrt.Strategy     { return pickStrategy(rng, 40) }
 func (c11) Shrink(pj json.RawMessage) []json.RawMessage { return shrinkDPlan(pj) }
 
 func (c11) Gen(rng *simrt.Rand, tier string, run int) interface{} {
 	p := DPlan{System: "file", PriorLen: -1}
 	n := rng.PickU64(1, 2, 3, 5, 8, 16)
+	if run%8 == 7 {
+		// (e) concurrent readers while a pread fails: a reader that shares
+		// another's system call (or its buffer) must not return as if it had read
+		p.Batch = "concread"
+		nb := uint64(1 + rng.Intn(2))
+		p.PriorLen = int64(nb) * model.BlockSize
+		nr := 2 + rng.Intn(3)
+		total := 0
+		for c := 0; c < nr; c++ {
+			var ops []SeqOp
+			for k := 0; k < 1+rng.Intn(3); k++ {
+				ops = append(ops, SeqOp{Kind: rng.PickStr("read", "readto"), Addr: uint64(rng.Intn(int(nb)))})
+			}
+			total += len(ops)
+			p.Rounds = append(p.Rounds, Round{N: nb, Ops: ops})
+		}
+		f := simunix.Fault{Kind: "errno", Errno: int(simunix.EIO), Op: "pread", At: rng.Intn(total), Sticky: rng.Chance(1, 3)}
+		if rng.Chance(1, 3) {
+			f.Kind, f.Errno, f.Short = "short", 0, rng.Pick(0, 512, 4095)
+		}
+		p.Faults = []simunix.Fault{f}
+		return p
+	}
 	if run%4 == 3 {
 		// (d) concurrent clients, a failing flush, then a power crash
 		p.Batch = "concflush"
@@ -97,6 +120,19 @@ var faultMenu = map[string][]simunix.Fault{
 	"pwrite":    {{Kind: "errno", Errno: int(simunix.EIO)}, {Kind: "errno", Errno: int(simunix.ENOSPC)}, {Kind: "short", Short: 512}, {Kind: "short", Short: 0}},
 	"fsync":     {{Kind: "errno", Errno: int(simunix.EIO)}, {Kind: "errno", Errno: int(simunix.EINTR)}},
 	"close":     {{Kind: "errno", Errno: int(simunix.EIO)}},
+	"fallocate": {{Kind: "errno", Errno: int(simunix.EIO)}, {Kind: "errno", Errno: int(simunix.ENOSPC)}, {Kind: "errno", Errno: int(simunix.EOPNOTSUPP)}},
+	"fdatasync": {{Kind: "errno", Errno: int(simunix.EIO)}, {Kind: "errno", Errno: int(simunix.EINTR)}},
+	"read":      {{Kind: "errno", Errno: int(simunix.EIO)}, {Kind: "short", Short: 512}},
+	"write":     {{Kind: "errno", Errno: int(simunix.EIO)}, {Kind: "errno", Errno: int(simunix.ENOSPC)}, {Kind: "short", Short: 512}},
+}
+
+// menuFor: system calls the shipped code does not make get a default menu, so
+// that a tree which starts using another call has its failures injected too.
+func menuFor(op string) []simunix.Fault {
+	if m, ok := faultMenu[op]; ok {
+		return m
+	}
+	return []simunix.Fault{{Kind: "errno", Errno: int(simunix.EIO)}}
 }
 
 func (c11) Expand(pj json.RawMessage) []json.RawMessage {
@@ -157,7 +193,7 @@ func (c11) Expand(pj json.RawMessage) []json.RawMessage {
 		return out
 	}
 	for _, rec := range pr.trace {
-		for _, f := range faultMenu[rec.Op] {
+		for _, f := range menuFor(rec.Op) {
 			f.At = rec.N
 			add(f)
 		}
@@ -167,7 +203,7 @@ func (c11) Expand(pj json.RawMessage) []json.RawMessage {
 		rng := simrt.NewRand(planHash(pj, "double-fault"))
 		for k := 0; k < 6; k++ {
 			a, b := pr.trace[rng.Intn(n)], pr.trace[rng.Intn(n)]
-			ma, mb := faultMenu[a.Op], faultMenu[b.Op]
+			ma, mb := menuFor(a.Op), menuFor(b.Op)
 			if a.N == b.N || len(ma) == 0 || len(mb) == 0 {
 				continue
 			}
@@ -186,6 +222,9 @@ func (c11) Exec(pj json.RawMessage, tape *simrt.Tape, keepLog bool) harness.RunO
 	var p DPlan
 	if err := json.Unmarshal(pj, &p); err != nil {
 		return harness.RunOut{Infra: err.Error()}
+	}
+	if p.Batch == "concread" {
+		return execConcRead(&p, tape, keepLog)
 	}
 	if p.Batch == "concflush" {
 		return execConcFlush(&p, tape, keepLog)
@@ -223,6 +262,81 @@ func (c11) Exec(pj json.RawMessage, tape *simrt.Tape, keepLog bool) harness.RunO
 // returned normally must find the value it had written before that Barrier (or
 // a later one of its own) after reopening. In this plan Rounds[c] is client c's
 // operation list (the disk is opened once with Rounds[0].N blocks).
+// execConcRead: readers of a prior image run concurrently while one (or every
+// later) pread fails or comes back short. A Read/ReadTo that returns normally
+// must have produced the block.
+func execConcRead(p *DPlan, tape *simrt.Tape, keepLog bool) harness.RunOut {
+	s := simrt.New(simrt.Config{DaemonsOK: true, Tape: tape, KeepLog: keepLog})
+	k := simunix.NewKernel(simunix.Config{})
+	k.WriteFile("/disk.img", priorImage(p.PriorLen))
+	simunix.Attach(s, k)
+	n := p.Rounds[0].N
+	var openErr error
+	var bad string
+	res := s.Run(func() {
+		d, err := disk.NewFileDisk("/disk.img", n)
+		if err != nil {
+			openErr = err
+			return
+		}
+		k.SetFaults(p.Faults) // count preads from here
+		var wg simsync.WaitGroup
+		wg.Add(len(p.Rounds))
+		for ci := range p.Rounds {
+			ci := ci
+			simrt.GoNamed(fmt.Sprintf("r%d", ci), func() {
+				defer wg.Done()
+				for oi, op := range p.Rounds[ci].Ops {
+					var b []byte
+					pan, _ := attempt(func() {
+						if op.Kind == "read" {
+							b = d.Read(op.Addr)
+						} else {
+							b = make([]byte, model.BlockSize)
+							for i := range b {
+								b[i] = 0xA5
+							}
+							d.ReadTo(op.Addr, b)
+						}
+					})
+					if pan {
+						continue
+					}
+					if ok, why := (expBlock{known: true, prior: true}).matches(b, op.Addr); !ok && bad == "" {
+						bad = fmt.Sprintf("reader %d op %d: %s(%d) returned normally, but not with the block: %s", ci, oi, op.Kind, op.Addr, why)
+					}
+				}
+			})
+		}
+		wg.Wait()
+	})
+	out := harness.RunOut{Fingerprint: res.Fingerprint, Events: res.Events, Probes: s.Probes, Faults: s.Faults, Sched: tape.Sched, Aux: tape.Aux, Log: res.Log}
+	out.Probes["batch_concread"]++
+	out.Sample = map[string]interface{}{"plan": p}
+	if openErr != nil {
+		out.Violation = viol("filedisk.open", "NewFileDisk failed without a fault: "+openErr.Error())
+		return out
+	}
+	switch res.Outcome {
+	case simrt.Deadlock:
+		out.Violation = viol("filedisk.conc.deadlock", "a Read call never returns: "+res.Detail)
+		return out
+	case simrt.StepCap:
+		out.Inconclusive = "inconclusive-steps"
+		return out
+	}
+	for kk, v := range s.Faults {
+		if v > 0 && len(kk) > 0 {
+			out.NonTrivial = true
+		}
+	}
+	if bad != "" {
+		out.Violation = &harness.Violation{Oracle: "filedisk.fault.silent", Key: "filedisk.fault.silent/pread/concurrent",
+			Msg: bad + fmt.Sprintf(" (fault: %+v)", p.Faults)}
+	}
+	return out
+}
+
 func execConcFlush(p *DPlan, tape *simrt.Tape, keepLog bool) harness.RunOut {
 	s := simrt.New(simrt.Config{DaemonsOK: true, Tape: tape, KeepLog: keepLog})
 	kc := simunix.Config{}
